@@ -119,7 +119,7 @@ var r1Frozen = map[string]string{
 
 func ruleR1(c *Ctx, id string) {
 	R, P := c.R, c.P
-	R.Rule(id, "commit-before-success: on every path of every handler that holds a transaction, a success status is returned only after a synchronous commit of the last transaction whose result was tested true", 60)
+	R.Rule(id, "commit-before-success: on every path of every handler that holds a transaction, a success status is returned only after a synchronous commit of the last transaction whose result was tested true; no operation runs on a finished transaction", 60)
 	t := c.tsPreamble(id)
 	type agg struct {
 		ok    bool
@@ -191,13 +191,17 @@ func ruleR1(c *Ctx, id string) {
 			R.Pass(id, k, a.pos, "error reply (judged by C09.A1)", fmt.Sprintf("%d abstract end states", a.n))
 		}
 	}
+	// everything the request changes goes through the transaction that is committed: nothing through a finished one
+	for _, e := range sortedEvents(t, "call-dead") {
+		R.Fail(id, FuncName(e.Fn)+"|finished txn used|"+e.Entry, P.Pos(e.Pos), "no operation runs on a transaction that was already committed or aborted", e.Detail+" (stack "+e.Stack+"): what is written through a finished transaction is never committed, although the reply reports success")
+	}
 }
 
 // ---------------------------------------------------------------- C09.A1 / A5
 
 func ruleA1(c *Ctx, id string) {
 	R, P := c.R, c.P
-	R.Rule(id, "error replies abort and never commit: at every error return every transaction of the path is aborted (or untouched, or its commit reported failure); no commit after a step of the transaction reported failure", 75)
+	R.Rule(id, "error replies abort and never commit: at every error return every transaction of the path is aborted (or untouched, or its commit reported failure, or it is the shrinker's own helping transaction); no commit after a step of the transaction reported failure", 75)
 	t := c.tsPreamble(id)
 	type agg struct {
 		ok  bool
@@ -228,6 +232,10 @@ func ruleA1(c *Ctx, id string) {
 			case ts.St == "live" && !ts.Holds && !ts.MayAlloc:
 			case ts.St == "committed" && ts.CommitRes == "false":
 				// the error *is* the failed commit (journal reports no effect)
+			case ts.St == "committed" && strings.HasPrefix(idt, "B@shrinker/"):
+				// the request helped a pending background shrink (DoShrink's own transaction): it
+				// continues a truncation / removal acknowledged earlier and frees only blocks that
+				// are already unreachable; nothing of the failing request is in it
 			case ts.St == "live":
 				// leak, reported by C06.L2
 			default:
